@@ -400,3 +400,250 @@ Proof.
 Qed.
 
 End R4.
+
+(* ====================================================================================================
+   Block chaining: the model's block lists (chunks_exact(16) + a chained loop) against SP 800-38A's
+   recurrence over the byte string
+   ==================================================================================================== *)
+Lemma cbc_e_eq E k : forall iv data, length data = (16 * k)%nat ->
+  concat (cbc_enc E iv (chunks16 data)) = cbc_e k E iv data.
+Proof.
+  induction k as [|k IH]; intros iv data HL.
+  - destruct data; [reflexivity|cbn in HL; lia].
+  - rewrite <- (firstn_skipn 16 data) at 1.
+    rewrite chunks16_app by (rewrite firstn_length; lia).
+    cbn [cbc_enc concat cbc_e]. f_equal. apply IH. rewrite skipn_length. lia.
+Qed.
+
+Lemma cbc_d_eq D k : forall iv data, length data = (16 * k)%nat ->
+  concat (cbc_dec D iv (chunks16 data)) = cbc_d k D iv data.
+Proof.
+  induction k as [|k IH]; intros iv data HL.
+  - destruct data; [reflexivity|cbn in HL; lia].
+  - rewrite <- (firstn_skipn 16 data) at 1.
+    rewrite chunks16_app by (rewrite firstn_length; lia).
+    cbn [cbc_dec concat cbc_d]. f_equal. apply IH. rewrite skipn_length. lia.
+Qed.
+
+Lemma whole_blocks (data : bytes) : Nat.modulo (length data) 16 = 0%nat ->
+  length data = (16 * (length data / 16))%nat.
+Proof. intro H. pose proof (Nat.div_mod (length data) 16 ltac:(lia)). lia. Qed.
+
+Lemma cbc_encrypt_nopad_eq E iv data : Nat.modulo (length data) 16 = 0%nat ->
+  cbc_encrypt_nopad E iv data = cbc_e (length data / 16) E iv data.
+Proof.
+  intro H. pose proof (whole_blocks _ H) as HL.
+  unfold cbc_encrypt_nopad, exact_blocks. cbv zeta.
+  replace (length data / 16 * 16)%nat with (length data) by lia.
+  rewrite firstn_all, skipn_all, app_nil_r. apply cbc_e_eq. exact HL.
+Qed.
+
+Lemma cbc_decrypt_nopad_eq D iv data : Nat.modulo (length data) 16 = 0%nat ->
+  cbc_decrypt_nopad D iv data = cbc_d (length data / 16) D iv data.
+Proof.
+  intro H. pose proof (whole_blocks _ H) as HL.
+  unfold cbc_decrypt_nopad, exact_blocks. cbv zeta.
+  replace (length data / 16 * 16)%nat with (length data) by lia.
+  rewrite firstn_all, skipn_all, app_nil_r. apply cbc_d_eq. exact HL.
+Qed.
+
+(* ====================================================================================================
+   Revisions 5 and 6
+   ==================================================================================================== *)
+Section R6.
+Variable P : prims.
+Let I := iprims_of P.
+
+Lemma concat_repeat_length (x : bytes) n : length (concat (repeat x n)) = (n * length x)%nat.
+Proof. induction n as [|n IH]; cbn [repeat concat length]; [reflexivity|rewrite app_length, IH; lia]. Qed.
+
+(* one round of Algorithm 2.B as lopdf computes it *)
+Definition lopdf_round (pw uk k : bytes) : bytes * bytes :=
+  let k1 := concat (repeat (pw ++ k ++ uk) 64) in
+  let e := cbc_encrypt_nopad (p_aes_enc P (firstn 16 k)) (firstn 16 (skipn 16 k)) k1 in
+  (match sum_bytes (firstn 16 e) mod 3 with
+   | 0 => p_sha256 P e
+   | 1 => p_sha384 P e
+   | _ => p_sha512 P e
+   end, e).
+
+Lemma round_eq pw uk k : lopdf_round pw uk k = alg2B_round I pw uk k.
+Proof.
+  unfold lopdf_round, alg2B_round, aes_cbc_nopad_e. cbv zeta.
+  assert (HL : Nat.modulo (length (concat (repeat (pw ++ k ++ uk) 64))) 16 = 0%nat).
+  { rewrite concat_repeat_length. change 64%nat with (4 * 16)%nat.
+    rewrite <- Nat.mul_assoc, (Nat.mul_comm 16), Nat.mul_assoc. apply Nat.mod_mul. lia. }
+  rewrite cbc_encrypt_nopad_eq by exact HL. cbn [i_AES_E i_SHA256 i_SHA384 i_SHA512 I iprims_of].
+  rewrite sum_bytes_mod3. reflexivity.
+Qed.
+
+Lemma hash_rounds_unfold fuel pw uk round k :
+  hash_rounds P pw uk (S fuel) round k =
+  let ke := lopdf_round pw uk k in
+  if (64 <=? round) && (N_of_byte (last (snd ke) x00) <=? round - 32) then fst ke
+  else hash_rounds P pw uk fuel (round + 1) (fst ke).
+Proof. reflexivity. Qed.
+
+(* the first rounds: lopdf's exit test needs round >= 64 *)
+Lemma hash_rounds_first pw uk j : forall fuel round k e, round + N.of_nat j <= 64 ->
+  hash_rounds P pw uk (j + fuel) round k =
+  hash_rounds P pw uk fuel (round + N.of_nat j) (fst (Nat.iter j (fun KE => alg2B_round I pw uk (fst KE)) (k, e))).
+Proof.
+  induction j as [|j IH]; intros fuel round k e H.
+  - cbn [Nat.add Nat.iter nat_rect fst N.of_nat]. rewrite N.add_0_r. reflexivity.
+  - change (S j + fuel)%nat with (S (j + fuel)). rewrite hash_rounds_unfold. cbv zeta.
+    destruct (N.leb_spec 64 round) as [L|L]; [lia|]. cbn [andb].
+    rewrite (IH fuel (round + 1) _ (snd (lopdf_round pw uk k))) by lia.
+    rewrite nat_iter_succ_r. cbv beta. cbn [fst]. rewrite <- round_eq, <- surjective_pairing.
+    f_equal. lia.
+Qed.
+
+(* from round 64 on: lopdf tests after computing a round whether to stop, the standard tests before
+   computing a round whether to go on; both stop at round 287 at the latest (a byte is at most 255) *)
+Lemma hash_rounds_rest pw uk f1 : forall f2 round k,
+  64 <= round -> 288 <= round + N.of_nat f1 -> 288 <= round + N.of_nat f2 -> (1 <= f1)%nat -> (1 <= f2)%nat ->
+  hash_rounds P pw uk f1 round k = alg2B_extra I f2 pw uk round (alg2B_round I pw uk k).
+Proof.
+  induction f1 as [|f1 IH]; intros f2 round k H64 Hf1 Hf2 H1 H2; [lia|].
+  destruct f2 as [|f2]; [lia|].
+  rewrite hash_rounds_unfold, round_eq. cbv zeta. cbn [alg2B_extra].
+  set (ke := alg2B_round I pw uk k).
+  pose proof (N_of_byte_lt (last (snd ke) x00)) as Hb.
+  destruct (N.leb_spec 64 round) as [_|?]; [|lia]. cbn [andb].
+  destruct (N.leb_spec (N_of_byte (last (snd ke) x00)) (round - 32)) as [A|A];
+    destruct (N.ltb_spec (round - 32) (N_of_byte (last (snd ke) x00))) as [B|B]; try lia; [reflexivity|].
+  apply IH; lia.
+Qed.
+
+(* Algorithm 2.B, and the plain SHA-256 of revision 5 *)
+Theorem alg2B_refines a R pw salt uk : pa_revision a = R ->
+  compute_hash P a pw salt uk = hash_r56 I R pw salt uk.
+Proof.
+  intro HR. unfold compute_hash, hash_r56, alg2B. rewrite HR. cbv zeta.
+  destruct (R =? 5)%Z; [reflexivity|]. f_equal.
+  change 288%nat with (63 + 225)%nat.
+  rewrite (hash_rounds_first pw uk 63 225 1 _ []) by (cbv; discriminate).
+  change (1 + N.of_nat 63) with 64.
+  rewrite (hash_rounds_rest pw uk 225 256) by (try lia; cbv; discriminate).
+  change 64%nat with (S 63) at 2.
+  change (Nat.iter (S 63) ?f ?x) with (f (Nat.iter 63 f x)). reflexivity.
+Qed.
+
+Lemma trunc_pw_eq pw : trunc_pw pw = trunc127 pw.
+Proof. reflexivity. Qed.
+
+Lemma slice_eq l from n : slice l from n = sub l from n.
+Proof. reflexivity. Qed.
+
+(* Algorithm 8: U and UE.  [fek] the 32-byte file encryption key *)
+Theorem alg8_refines a R fek pw rnd : pa_revision a = R -> length fek = 32%nat ->
+  user_value_r6 P a fek pw rnd = alg8 I R fek pw rnd.
+Proof.
+  intros HR HL. unfold user_value_r6, alg8, aes_cbc_nopad_e. cbv zeta.
+  rewrite !(alg2B_refines a R) by exact HR.
+  rewrite cbc_encrypt_nopad_eq by (rewrite HL; reflexivity).
+  change (fit 16 rnd) with (sixteen rnd). rewrite (firstn_skipn 8 (sixteen rnd)). reflexivity.
+Qed.
+
+(* Algorithm 9: O and OE; the U value of Algorithm 8 is already stored *)
+Theorem alg9_refines a R fek pw rnd : pa_revision a = R -> length fek = 32%nat ->
+  owner_value_r6 P a fek pw rnd = alg9 I R fek pw (pa_U a) rnd.
+Proof.
+  intros HR HL. unfold owner_value_r6, alg9, aes_cbc_nopad_e. cbv zeta.
+  rewrite !(alg2B_refines a R) by exact HR.
+  rewrite cbc_encrypt_nopad_eq by (rewrite HL; reflexivity).
+  change (fit 16 rnd) with (sixteen rnd). rewrite (firstn_skipn 8 (sixteen rnd)). reflexivity.
+Qed.
+
+(* Algorithms 11 and 12 *)
+Theorem alg11_refines a R pw : pa_revision a = R ->
+  auth_user_r6 P a pw = if alg11 I R (pa_U a) pw then Ok tt else Err D_IncorrectPassword.
+Proof.
+  intro HR. unfold auth_user_r6, alg11. cbv zeta. rewrite (alg2B_refines a R) by exact HR. reflexivity.
+Qed.
+Theorem alg12_refines a R pw : pa_revision a = R ->
+  auth_owner_r6 P a pw = if alg12 I R (pa_O a) (pa_U a) pw then Ok tt else Err D_IncorrectPassword.
+Proof.
+  intro HR. unfold auth_owner_r6, alg12. cbv zeta. rewrite (alg2B_refines a R) by exact HR. reflexivity.
+Qed.
+
+Record matches_r6 (a : palg) (R : Z) (O U OE UE Perms : bytes) (Pz : Z) (em : bool) : Prop := {
+  m6_R : pa_revision a = R;
+  m6_O : pa_O a = O;
+  m6_U : pa_U a = U;
+  m6_OE : pa_OE a = OE;
+  m6_UE : pa_UE a = UE;
+  m6_Perms : pa_perms_enc a = Perms;
+  m6_OE_len : length OE = 32%nat;
+  m6_UE_len : length UE = 32%nat;
+  m6_P : pa_perms a = perms_of_Z Pz;
+  m6_P_conf : conforming_P Pz = true;
+  m6_em : pa_encrypt_metadata a = em;
+}.
+
+Lemma perms_plain_eq a Pz em rnd :
+  pa_perms a = perms_of_Z Pz -> conforming_P Pz = true -> pa_encrypt_metadata a = em ->
+  perms_plain a rnd = perms_block Pz em rnd.
+Proof.
+  intros HP HC Hem. unfold perms_plain, perms_block. rewrite HP, Hem, le_bytes_eq.
+  destruct (p_value_conforming Pz HC) as [Hv _]. rewrite Hv. reflexivity.
+Qed.
+
+(* Algorithm 10: Perms *)
+Theorem alg10_refines a Pz em fek rnd :
+  pa_perms a = perms_of_Z Pz -> conforming_P Pz = true -> pa_encrypt_metadata a = em ->
+  perms_r6 P a fek rnd = alg10 I Pz em fek rnd.
+Proof.
+  intros HP HC Hem. unfold perms_r6, alg10. rewrite (perms_plain_eq a Pz em rnd HP HC Hem). reflexivity.
+Qed.
+
+(* Algorithm 13: lopdf compares 3 of the 4 permission bytes and, beyond the standard's text, byte 8 with
+   EncryptMetadata: it accepts every Perms the standard accepts whose byte 8 is the one Algorithm 10 (c) writes *)
+Theorem alg13_refines a Pz em fek :
+  pa_perms a = perms_of_Z Pz -> conforming_P Pz = true -> pa_encrypt_metadata a = em ->
+  alg13 I Pz fek (pa_perms_enc a) = true ->
+  nth 8 (p_aes_dec P fek (pa_perms_enc a)) x00 = (if em then "T"%byte else "F"%byte) ->
+  validate_permissions P a fek = Ok tt.
+Proof.
+  intros HP HC Hem H13 H8. unfold alg13 in H13. cbn [i_AES_D I iprims_of] in H13.
+  apply andb_true_iff in H13. destruct H13 as [Hadb H4].
+  apply bytes_eqb_eq in H4.
+  unfold validate_permissions. cbv zeta. rewrite slice_eq.
+  change (bs "adb") with [x61; x64; x62]. rewrite Hadb. cbn [negb].
+  assert (E3 : firstn 3 (p_aes_dec P fek (pa_perms_enc a)) = firstn 3 (N_to_le 8 (p_value (pa_perms a)))).
+  { destruct (p_value_conforming Pz HC) as [Hv _].
+    rewrite HP, Hv, le_bytes_eq.
+    change 3%nat with (Nat.min 3 4). rewrite <- !firstn_firstn. rewrite H4, le_bytes8_first4, le_bytes4_high.
+    reflexivity. }
+  rewrite E3, bytes_eqb_refl. cbn [negb]. rewrite H8, Hem, byte_eqb_refl. reflexivity.
+Qed.
+
+(* Algorithm 2.A: the key lopdf retrieves is the key the standard retrieves (when the standard accepts the
+   password, and byte 8 of the decrypted Perms is what Algorithm 10 (c) writes) *)
+Theorem alg2A_refines a R O U OE UE Perms Pz em pw k :
+  matches_r6 a R O U OE UE Perms Pz em ->
+  alg2A I R O U OE UE Perms Pz pw = Some k ->
+  nth 8 (p_aes_dec P k Perms) x00 = (if em then "T"%byte else "F"%byte) ->
+  compute_fek_r6 P a pw = Ok k.
+Proof.
+  intros M H2A H8. unfold alg2A in H2A. unfold compute_fek_r6. cbv zeta.
+  rewrite !(alg2B_refines a R) by exact (m6_R _ _ _ _ _ _ _ _ _ M).
+  rewrite (m6_O _ _ _ _ _ _ _ _ _ M), (m6_U _ _ _ _ _ _ _ _ _ M), (m6_OE _ _ _ _ _ _ _ _ _ M), (m6_UE _ _ _ _ _ _ _ _ _ M).
+  rewrite trunc_pw_eq. unfold slice.
+  unfold alg12, alg11, sub in H2A.
+  rewrite !cbc_decrypt_nopad_eq
+    by (rewrite ?(m6_OE_len _ _ _ _ _ _ _ _ _ M), ?(m6_UE_len _ _ _ _ _ _ _ _ _ M); reflexivity).
+  unfold aes_cbc_nopad_d in H2A. cbn [i_AES_D I iprims_of] in H2A.
+  destruct (bytes_eqb (hash_r56 I R (trunc127 pw) (firstn 8 (skipn 32 O)) U) (firstn 32 O)).
+  - destruct (alg13 _ _ _ _) in H2A; inversion H2A. reflexivity.
+  - destruct (bytes_eqb (hash_r56 I R (trunc127 pw) (firstn 8 (skipn 32 U)) []) (firstn 32 U)); [|discriminate].
+    set (ue := cbc_d _ _ _ UE) in *.
+    destruct (alg13 I Pz ue Perms) eqn:E13; [|discriminate].
+    assert (Hk : ue = k) by congruence. subst k.
+    rewrite <- (m6_Perms _ _ _ _ _ _ _ _ _ M) in E13, H8.
+    rewrite (alg13_refines a Pz em ue (m6_P _ _ _ _ _ _ _ _ _ M) (m6_P_conf _ _ _ _ _ _ _ _ _ M)
+               (m6_em _ _ _ _ _ _ _ _ _ M) E13 H8).
+    reflexivity.
+Qed.
+
+End R6.
